@@ -275,3 +275,47 @@ def gaussian_log(nbasis, overlap=None, kinetic=None, potential=None, eri_chem=No
         out.append(" Leave Link  302")
     out += [" Normal termination of Gaussian 09", ""]
     return "\n".join(out) + "\n"
+
+
+# ---- GAMESS / PC GAMESS (Firefly) punch file (.dat): $DATA, per-step coordinates, $GRAD, $HESS, ATOMIC MASSES ---------
+def gamess_punch(title, z, steps, hessian=None, approx_hessian=None, masses_amu=None, enuc=9.25):
+    """steps: list of (xyz_bohr, energy, gradient|None); the last step is the final geometry.
+    Fortran layouts as printed by GAMESS: $DATA atom card A10,F5.1,3F18.10; coordinate table 1X,A10,F5.1,3F15.10;
+    $GRAD card A10,F5.0(printed 'Z.'),3E20.10; $HESS card I2,I3,1P5E15.8 with the row label printed modulo 100 and
+    the card counter modulo 1000; masses 5F12.5."""
+    symu = [sym(zi).upper() for zi in z]
+
+    def hess_block(h, energy):
+        out = [" $HESS", f"ENERGY IS {energy:19.10f} E(NUC) IS {enuc:19.10f}"]
+        for i, row in enumerate(h):
+            for k in range(0, len(row), 5):
+                out.append(f"{(i + 1) % 100:2d}{(k // 5 + 1) % 1000:3d}" + "".join(f"{v:15.8E}" for v in row[k : k + 5]))
+        out.append(" $END")
+        return out
+
+    out = ["$DATA", f"{title:<80s}", "C1       0"]
+    for s, zi, r in zip(symu, z, steps[0][0] / ANG):
+        out.append(f"{s:<10s}{float(zi):5.1f}" + "".join(f"{v:18.10f}" for v in r))
+        out += ["   S          1", "     1         1.5000000000  1.00000000", "           "]
+    out.append(" $END      ")
+    for istep, (xyz_bohr, energy, grad) in enumerate(steps):
+        out.append(f"-------------------- DATA FROM NSERCH={istep:4d} --------------------")
+        out += [" COORDINATES OF SYMMETRY UNIQUE ATOMS (ANGS)", "   ATOM   CHARGE       X              Y              Z", " " + "-" * 60]
+        for s, zi, r in zip(symu, z, xyz_bohr / ANG):
+            out.append(f" {s:<10s}{float(zi):5.1f}" + "".join(f"{v:15.10f}" for v in r))
+        out += [f"--- CLOSED SHELL ORBITALS --- GENERATED AT step {istep}", title, f"E(RHF)= {energy:19.10f}, E(NUC)= {enuc:15.10f}, 9 ITERS", " $VEC", " 1  1 1.00000000E+00", " $END"]
+        if grad is not None:
+            out += [" $GRAD", f"E={energy:20.10f}  GMAX={np.abs(grad).max():12.7f}  GRMS={np.sqrt((np.asarray(grad) ** 2).mean()):12.7f}"]
+            for s, zi, g in zip(symu, z, grad):
+                out.append(f"{s:<10s}{float(zi):5.0f}." + "".join(f"{v:20.10E}" for v in g))
+            out.append(" $END")
+        if approx_hessian is not None and istep == len(steps) - 1:
+            out.append("CAUTION, APPROXIMATE HESSIAN!")
+            out += hess_block(approx_hessian, energy)
+    if hessian is not None:
+        out += hess_block(hessian, steps[-1][1])
+    if masses_amu is not None:
+        out += ["----- START OF NORMAL MODES FOR -MOLPLT- PROGRAM -----", "ATOMIC MASSES"]
+        out += ["".join(f"{m:12.5f}" for m in masses_amu[k : k + 5]) for k in range(0, len(masses_amu), 5)]
+        out += ["MODE    1   FREQUENCY=   2.35182 (CM**-1)", "----- END OF NORMAL MODES FOR -MOLPLT- PROGRAM -----"]
+    return "\n".join(out) + "\n"
